@@ -127,6 +127,14 @@ let rec rd_site () : site =
   expect "]";
   Site (pages, subs)
 let rd_vals () = times (counted 'V') (fun () -> let k = hexb () in let v = hexb () in (k, v))
+(* W<n> (<pos> <key> <value>)*: values set on the mapper of a node before its parent mounts it (optional) *)
+let rd_pre () =
+  if String.length (peek ()) > 0 && (peek ()).[0] = 'W' then
+    times (counted 'W') (fun () -> let pos = next () in let k = hexb () in let v = hexb () in (pos, k, v))
+  else []
+let wr_pre pre = if pre = [] then [] else
+  [String.concat " " (Printf.sprintf "W%d" (List.length pre) :: List.map (fun (pos, k, v) -> pos ^ " " ^ hex_of_bytes k ^ " " ^ hex_of_bytes v) pre)]
+let rec app_depth (App (_, _, kids, _)) = 1 + List.fold_left (fun m k -> max m (app_depth k)) 0 kids
 let rd_mp () : mpoint =
   expect "{";
   let h = optpat_tok () in let s = optpat_tok () in let p = optpat_tok () in
@@ -181,6 +189,10 @@ let eval_tree_queries throws vals0 root =
                (match map_output throws (map_at root !cur pos key ps) with
                 | Some u -> "U " ^ hex_of_bytes u ^ " " ^ wr_outcome (app_main root u (Some [byte_tab.(71); byte_tab.(69); byte_tab.(84)]))
                 | None -> "E")
+      | "sw" -> let _pos = next () in let k = hexb () in let v = hexb () in
+                cur := List.filter (fun (k', _) -> k' <> k) !cur @ [(k, v)]; "s"
+      | "cw" -> let _pos = next () in let k = hexb () in
+                cur := List.filter (fun (k', _) -> k' <> k) !cur; "c"
       | "sv" -> let k = hexb () in let v = hexb () in
                 cur := List.filter (fun (k', _) -> k' <> k) !cur @ [(k, v)]; "s"
       | "cv" -> let k = hexb () in
@@ -196,8 +208,13 @@ let eval_line (ts : string list) : string =
   | "T" ->
       let throws = next () = "1" in
       let vals = rd_vals () in
+      let pre = rd_pre () in
       let root = rd_app () in
       expect "Q";
+      let rec vt (App (_, _, kids, _)) path =
+        VT (List.filter_map (fun (pos, k, v) -> if rd_pos pos = List.rev path then Some (k, v) else None) pre,
+            List.mapi (fun i kid -> vt kid (nat_of_int i :: path)) kids) in
+      let vals = collect_vals (nat_of_int (app_depth root + 1)) root (vt root []) @ vals in
       if !mismatch then "PRINT-MISMATCH"
       else if not (build_ok root) then "CONSTRUCT-ERROR"
       else if not (app_supported root) then "UNSUPPORTED"
@@ -389,8 +406,8 @@ let prepare_line (ts : string list) : string =
   toks := ts; mismatch := false;
   match next () with
   | "T" ->
-      let throws = next () in let vals = rd_vals () in let root = rd_app () in expect "Q";
-      String.concat " " (["T"; throws; wr_vals vals; wr_app root; "Q"] @ !toks)
+      let throws = next () in let vals = rd_vals () in let pre = rd_pre () in let root = rd_app () in expect "Q";
+      String.concat " " (["T"; throws; wr_vals vals] @ wr_pre pre @ [wr_app root; "Q"] @ !toks)
   | "S" ->
       let throws = next () in let vals = rd_vals () in let s = rd_site () in expect "Q";
       String.concat " " (["T"; throws; wr_vals vals; wr_app (build s); "Q"] @ !toks)
